@@ -47,3 +47,21 @@ Qed.
 Theorem generated_render_is_model (is_ipython : frame -> bool) (s : sframe) : gen_render is_ipython s = render is_ipython s.
 Proof. unfold gen_render, render. rewrite gen_collect_is_collect. reflexivity. Qed.
 Print Assumptions generated_render_is_model.
+
+(** ** C19 theorems, stated of the functions generated from the source *)
+From UJ Require Props.C19.
+Theorem C19_depth_on_source :
+  forall (e : entry) (internal : list frame) (u : frame) (below : list frame),
+    length internal = internal_frames true e ->
+    exists s, gen_get_stack_frame (initial_depth e) (internal ++ u :: below) = Some s /\
+      sframes s = firstn 4 (u :: below) /\
+      (length (sframes s) <= 4)%nat /\
+      (struncated s = true <-> (4 < length (u :: below))%nat).
+Proof. intros e internal u below H. rewrite generated_get_stack_frame_is_model. exact (Props.C19.C19_depth e internal u below H). Qed.
+Print Assumptions C19_depth_on_source.
+
+Theorem C19_render_outermost_first_on_source :
+  forall s : sframe,
+    gen_render (fun _ => false) s = (if struncated s then [RTrunc] else []) ++ map RFrame (rev (sframes s)).
+Proof. intros s. rewrite generated_render_is_model. apply Props.C19.C19_render_outermost_first. Qed.
+Print Assumptions C19_render_outermost_first_on_source.
